@@ -279,9 +279,9 @@ async def async_conn_op(c, op, arg, pending, acked, inflight, text):
     if op == "sel":
         return [tuple(r) for r in (await c.execute(text("select id, name from item order by id"))).all()]
     if op == "stream":
-        r = await c.stream(text("select id from item order by id"))
-        got = [tuple(x) for x in await r.fetchmany(arg)] if arg else []
-        await r.close()
+        # documented form: the context manager closes the server-side cursor also when the block is left by cancellation
+        async with c.stream(text("select id from item order by id")) as r:
+            got = [tuple(x) for x in await r.fetchmany(arg)] if arg else []
         return got
     if op in ("sp_rollback", "sp_commit"):
         sp = await c.begin_nested()
